@@ -216,6 +216,7 @@ def lockstep(a, terms, owner_slices, pos_val, role, back, facts, check_start, S_
     (ii) the traversal starts at the cursor - slot iterator from element `cursor` on (forward) or ending at it (backward) when the traversal begins.
     Returns (ok, detail)."""
     bad = []
+    by_skip = []
     for sl in owner_slices:
         def go(t, sl=sl):
             if t == sl:
@@ -227,7 +228,12 @@ def lockstep(a, terms, owner_slices, pos_val, role, back, facts, check_start, S_
                 if isinstance(x, tuple) and go(x):
                     hit = True
             if hit and len(t) >= 3 and t[0] == "V" and t[1] == "iter" and isinstance(t[2], str) and (t[2] not in LOCKSTEP_OK or (t[2] == "rev" and role == "builder")):
-                bad.append(t[2])
+                if (t[2] == "skip" and len(t) >= 5 and t[3] == sl and isinstance(t[4], tuple) and t[4] and t[4][0] == "I" and pos_val is not None and pos_val[0] == "I"
+                        and t[4][1] == pos_val[1] and sl[3][0] == "P" and not sl[3][2].t and not back):
+                    # `slots.skip(cursor)` directly over the owner's whole storage: the traversal starts at the slot the cursor designates
+                    by_skip.append(sl)
+                else:
+                    bad.append(t[2])
             return hit
         for t in terms:
             go(t)
@@ -239,6 +245,9 @@ def lockstep(a, terms, owner_slices, pos_val, role, back, facts, check_start, S_
             for sl in owner_slices:
                 ptr = sl[3]
                 if ptr[0] != "P" or ptr[3] is None:
+                    continue
+                if sl in by_skip:
+                    start_ok = True
                     continue
                 if ptr[2].t or pos_val[1].t or back:
                     # a non-zero offset / cursor: compare in elements of the storage's stride
